@@ -743,7 +743,16 @@ func ruleC15IndexFile(p *Prog, r *Res) {
 		}
 		n++
 		mutatesFile := false
+		// the function's own calls and those of the package helpers it calls (one level: discardRecord)
+		allCalls := callsIn(f.Body())
 		for _, c := range callsIn(f.Body()) {
+			if fn := p.Callee(f.Pkg, c); fn != nil {
+				if h := p.FnOfObj(fn); h != nil && h.Pkg == f.Pkg && h != f && h.Lit == nil && h.Body() != nil {
+					allCalls = append(allCalls, callsIn(h.Body())...)
+				}
+			}
+		}
+		for _, c := range allCalls {
 			if se, ok := ast.Unparen(c.Fun).(*ast.SelectorExpr); ok && isFieldOf(info, se.X, fileFld) {
 				switch se.Sel.Name {
 				case "Truncate", "Write", "WriteAt":
@@ -758,7 +767,7 @@ func ruleC15IndexFile(p *Prog, r *Res) {
 		}
 		// a marker written over the record's id (tombstone) must be the constant the load scan tests for
 		var marker constant.Value
-		for _, c := range callsIn(f.Body()) {
+		for _, c := range allCalls {
 			if fn := p.Callee(f.Pkg, c); fn != nil && strings.HasPrefix(fn.Name(), "PutUint") && len(c.Args) == 2 {
 				if tv, ok := info.Types[c.Args[1]]; ok && tv.Value != nil {
 					marker = tv.Value
